@@ -1,14 +1,14 @@
 SPECIFICATION Spec
 CONSTANTS
-  H = 3
-  B = 4
-  InitLen = 4
-  Fixed = FALSE
-  Ids <- IdsClasses
+  H = 2
+  B = 3
+  InitLen = 2
+  Fixed = TRUE
+  Ids <- IdsAll
   ServeFails = TRUE
   DeferUnreport = TRUE
   LockedAdd = TRUE
   Counting = TRUE
-  TrackKey = "pair"
-INVARIANTS LockNotLeaked NoWedge
+  TrackKey = "mod"
+INVARIANTS TrackedWhileServing
 CHECK_DEADLOCK FALSE
